@@ -59,7 +59,7 @@ def local_callees(F, path):
 def reach(F, entries):
     """crate-local functions (and closures nested in them) reachable from the entry points"""
     seen = []
-    work = list(entries)
+    work = [F.resolve(e_) for e_ in entries]
     edges = {}
     while work:
         p = work.pop()
